@@ -44,7 +44,11 @@ def main():
             rc2, out2 = sh(f"sh {runsh} 2>&1", cwd=os.path.dirname(runsh)); p2 = f2 = 0
             democmd = f"sh {runsh} (builds the program against /tmp/wt/{P} in three feature configurations and diffs the transcripts)"
         else:
-            if "minicbor-io/tests" in demo_txt:
+            if "minicbor-derive/tests" in demo_txt:
+                dst_demo, democmd = "minicbor-derive/tests/seed_demo.rs", "cargo test -p minicbor-derive --test seed_demo --offline"
+            elif "minicbor/tests" in demo_txt and "minicbor-tests" not in demo_txt.split("minicbor/tests")[0][-12:]:
+                dst_demo, democmd = "minicbor/tests/seed_demo.rs", "cargo test -p minicbor --test seed_demo --offline"
+            elif "minicbor-io/tests" in demo_txt:
                 dst_demo, democmd = "minicbor-io/tests/seed_demo.rs", "cargo test -p minicbor-io --test seed_demo --offline"
             elif "minicbor-serde/tests" in demo_txt:
                 dst_demo, democmd = "minicbor-serde/tests/seed_demo.rs", "cargo test -p minicbor-serde --features std --test seed_demo --offline"
@@ -60,7 +64,7 @@ def main():
         ok = compiled and sf == 0 and sp >= 54 and rc1 != 0 and rc2 == 0
         print(f"{P}/{k}: suite {sp} passed {sf} failed; demo with patch rc={rc1} ({p1} passed, {f1} failed); without rc={rc2} ({p2} passed, {f2} failed) -> {'CONFIRMED' if ok else 'NOT CONFIRMED'}", flush=True)
         if ok:
-            dst = f"/verif/seeded/{P}-{k}"
+            dst = f"/verif/seeded/{P}-{int(k) + int(os.environ.get('SEED_OFFSET', '0'))}"
             os.makedirs(dst, exist_ok=True)
             shutil.copy(os.path.join(sd, "patch.diff"), dst)
             shutil.copy(os.path.join(sd, "demo.rs"), dst)
